@@ -298,7 +298,9 @@ func cdUpperEdge(env *Env, base string, i int) error {
 // ---------------------------------------------------------------- C01: hostile path spellings on every path opcode (oracle only)
 
 var hostileElems = []string{"..", ".", "", "a", "R-other", "Rx", "secret", "sub", "x.iso", "***DVD***", "***PS3***", "***DVD***..", "***PS3***..", "***DVD***R-other",
-	"PS3ISO", "REDKEY", "..R-other", "R", "\x00", "CLOSEFILE", "k.dkey"}
+	"PS3ISO", "REDKEY", "..R-other", "R", "\x00", "CLOSEFILE", "k.dkey",
+	// bytes that are not UTF-8 around dots: ordinary (if odd) names for this server, never "." or ".."
+	".\xff.", "\xc0..", "..\xfe", ".\xff", "\xff", ".\xc3."}
 
 func runHostile(env *Env) error {
 	base, err := os.MkdirTemp("", "vhost")
@@ -353,7 +355,8 @@ func runHostile(env *Env) error {
 				p = sb.String()
 				if k%8 == 7 {
 					p = []string{`..\R-other\secret`, `/..\Rx\secret`, `/sub\..\..\R-other\x.iso`, `/..\secret`, `/***DVD***\..\..\Rx`, `..\..\secret`, `/..\R-other\sub`,
-						`/***PS3***/..\Rx`, `/a\..\..\R-other\new`, `\..\R-other\secret`, `/PS3ISO\..\..\Rx\x.iso`}[env.Rnd.Intn(11)]
+						`/***PS3***/..\Rx`, `/a\..\..\R-other\new`, `\..\R-other\secret`, `/PS3ISO\..\..\Rx\x.iso`,
+						"/.\xff./R-other/secret", "/\xc0../Rx/secret", "/sub/.\xff./.\xfe./R-other/x.iso", "/..\xff/secret"}[env.Rnd.Intn(15)]
 				}
 			}
 			if env.Rnd.Intn(3) != 0 {
